@@ -465,7 +465,7 @@ func cliWork(line string) string {
 	}
 
 	var cwdsf []string
-	var exits, named, wrs, diffs, outs, jss, oms, trs, vrs, ems, logs, jsons, reports, canons, raws []string
+	var exits, named, wrs, diffs, outs, jss, oms, trs, vrs, ems, logs, jsons, reports, canons, raws, probes []string
 	for _, s := range c.steps {
 		for _, e := range s.edits {
 			p := filepath.Join(home, filepath.FromSlash(e.path))
@@ -692,6 +692,26 @@ func cliWork(line string) string {
 		ems = append(ems, joinOr(em, ","))
 		logs = append(logs, joinOr(marks, ","))
 		jsons = append(jsons, jflat)
+		// the look-around probe (cmdSpec shape 11): wherever its output is visible it is the patterns themselves
+		probeState := "clean"
+		var seenLines []string
+		if hasJSON {
+			if doc, ok := parseOneJSON(stdout); ok {
+				for _, t := range doc {
+					for _, r := range t.Results {
+						seenLines = append(seenLines, strings.Split(r.Stdout, "\n")...)
+					}
+				}
+			}
+		} else {
+			seenLines = strings.Split(ansiRe.ReplaceAllString(stdout, ""), "\n")
+		}
+		for _, l := range seenLines {
+			if strings.Contains(l, "*~") && !strings.Contains(l, "echo ") && strings.TrimSpace(l) != lookAround {
+				probeState = "dirty:" + hx(l)
+			}
+		}
+		probes = append(probes, probeState)
 		if kind == "json" {
 			// the report byte for byte: the model writes the same bytes for the content read from them (CANON)
 			canons = append(canons, "ok")
@@ -703,8 +723,8 @@ func cliWork(line string) string {
 		reports = append(reports, hx(report))
 	}
 	j := func(xs []string) string { return strings.Join(xs, " / ") }
-	return fmt.Sprintf("EXIT %s ; NAMED %s ; WR %s ; OUT %s ; JS %s ; OM %s ; TR %s ; VR %s ; EM %s ; LOG %s ; DIFF %s ; JSON %s ; REPORT %s ; CWDSF %s ; CANON %s ; RAW %s",
-		j(exits), j(named), j(wrs), j(outs), j(jss), j(oms), j(trs), j(vrs), j(ems), j(logs), j(diffs), j(jsons), j(reports), j(cwdsf), j(canons), j(raws))
+	return fmt.Sprintf("EXIT %s ; NAMED %s ; WR %s ; OUT %s ; JS %s ; OM %s ; TR %s ; VR %s ; EM %s ; LOG %s ; DIFF %s ; JSON %s ; REPORT %s ; CWDSF %s ; CANON %s ; RAW %s ; PROBE %s",
+		j(exits), j(named), j(wrs), j(outs), j(jss), j(oms), j(trs), j(vrs), j(ems), j(logs), j(diffs), j(jsons), j(reports), j(cwdsf), j(canons), j(raws), j(probes))
 }
 
 // ---------------------------------------------------------------------------------------------
@@ -812,9 +832,8 @@ func (g *gen) genCmd(ti, ci, failPct int, lit map[string]string) cmdSpec {
 	case 11:
 		// a look around from inside the task: nothing has been dropped next to the cache directory or in the working
 		// directory while spok runs (a lock, a temporary file, a backup): the shell leaves a pattern that matches nothing as it is
-		probe := ".spok?* .*lock* *.lock *.tmp *~"
-		src += "; echo " + probe
-		k.out = probe + "\n"
+		src += "; echo " + lookAround
+		k.out = lookAround + "\n"
 	case 9:
 		// text that looks like JSON escapes, HTML and format verbs: it must come back from the report byte for byte
 		txt := g.pick(`a\u0026b`, `x\u003cy\u003e`, `<b>&amp;</b>`, `100%d%s`, `q\"uote\\`, `tab\there`, "del\x7fete")
@@ -1332,6 +1351,8 @@ func genC19Exhaustive(w *bufio.Writer, g *gen, worlds []int) {
 		}
 	}
 }
+
+const lookAround = ".spok?* .*lock* *.lock *.tmp *~"
 
 var taskHeadRe = regexp.MustCompile(`(?m)^task (\w+)\(([^)\n]*)\) \{`)
 
